@@ -1338,7 +1338,10 @@ fn run_child(ctx: &Ctx, dir: &str, words: &[String], deadline_s: u64) -> ChildOu
         match child.try_wait() {
             Ok(Some(st)) => break Some(st),
             Ok(None) => {
-                if t0.elapsed().as_secs() >= deadline_s {
+                // the deadline is CPU time of the worker (a starved worker on a loaded machine is
+                // slow, not hung); wall time only as a much later backstop for a blocked worker
+                let cpu = proc_cpu_secs(child.id()).unwrap_or(f64::INFINITY);
+                if (cpu >= deadline_s as f64 && t0.elapsed().as_secs() >= deadline_s) || t0.elapsed().as_secs() >= 4 * deadline_s {
                     let _ = child.kill();
                     let _ = child.wait();
                     timed_out = true;
